@@ -20,6 +20,11 @@ def spread(fn, mode, total_trials, nproc, **kw):
     return [fn(mode, per, first=i * per, **kw) for i in range(nproc)]
 
 
+def hw(trials, first=0, flavor="hooks"):
+    """directed redirected-waiter schedule (harness/h_waiter.c)"""
+    return Job(flavor, "h_waiter", ["--trials=%d" % trials, "--first=%d" % first], timeout=300, tag="h_waiter:%s" % flavor)
+
+
 def C01(tier):
     m = 1 if tier == "quick" else 12
     jobs = []
@@ -31,7 +36,9 @@ def C01(tier):
     jobs += [hq("default", 8 * m, first=50, ncpu=2, scale=60), hq("hier", 8 * m, first=60), hq("wl", 6 * m, first=70)]
     jobs += [hq("gate", 30 * m, first=0), hq("gate", 20 * m, first=500, ncpu=2)]
     jobs += [hq("starve", 2 * m, first=0, ncpu=2), hq("starve", 2 * m, first=10, ncpu=4), hq("starve", 1 * m, first=20, ncpu=1)]
-    jobs += [hq("default", 5 * m, first=900, flavor="asan", scale=30, timeout=600)]
+    jobs += [hq("default", 5 * m, first=900, flavor="asan", scale=30, timeout=600),
+             hq("wl", 6 * m, first=920, flavor="asan", scale=50, timeout=600), hq("hier", 5 * m, first=940, flavor="asan", scale=40, timeout=600)]
+    jobs += [hw(32 * m), hw(32 * m, flavor="asan")]
     if tier == "thorough":
         jobs += [hq("default", 10 * m, first=2000, flavor="dbg", scale=60, timeout=900)]
         for t in jobs:
@@ -45,6 +52,7 @@ def C01(tier):
         "site:_dispatch_root_queue_poke_slow:3": 1000,
         "gate_trials": 20,
         "starve_trials": 4,
+        "waiter_schedule_reached": 48,
     }
     rule = ("one case = one trial: a drawn queue graph (serial/concurrent/global/workloop queues, target chains to depth 4), "
             "workload shape (pingpong/flood/mixed/chain/gate/starve), 2-12 foreign client threads, a perturbation profile at the "
@@ -68,6 +76,9 @@ def C02(tier):
     jobs += [Job("hooks", "h_mainq", ["--trials=%d" % (2 * m)], timeout=300, tag="h_mainq")]
     jobs += [hq("serial", 6 * m, first=900, flavor="tsan", scale=25, timeout=900, perturb="uniform"),
              hq("pingpong", 4 * m, first=950, flavor="tsan", scale=25, timeout=900, perturb="uniform")]
+    # ASan with stack-use-after-return detection: sync contexts live on the waiters' stacks
+    jobs += [hq("serial", 6 * m, first=1000, flavor="asan", scale=40, timeout=600), hq("pingpong", 5 * m, first=1020, flavor="asan", scale=40, timeout=600),
+             hq("hier", 5 * m, first=1040, flavor="asan", scale=40, timeout=600)]
     if tier == "thorough":
         for t in jobs:
             t.timeout = 1800
@@ -94,8 +105,14 @@ def C03(tier):
     jobs += [hq("hier", 8 * m, first=100, ncpu=1, scale=40), hq("hier", 8 * m, first=200, ncpu=2, scale=60), hq("hier", 10 * m, first=300, ncpu=4)]
     jobs += spread(hq, "wl", 24 * m, 3)
     jobs += [hq("gate", 30 * m, first=0), hq("gate", 20 * m, first=500, ncpu=2)]
+    # hierarchies whose bottom is the main queue (serial and concurrent queues over it)
+    jobs += [Job("hooks", "h_mainq", ["--trials=%d" % (2 * m), "--first=50"], timeout=300, tag="h_mainq")]
     jobs += [hq("hier", 6 * m, first=900, flavor="tsan", scale=25, timeout=900, perturb="uniform"),
              hq("wl", 4 * m, first=950, flavor="tsan", scale=25, timeout=900, perturb="uniform")]
+    # ASan with stack-use-after-return detection: waiters redirected down the hierarchy live on foreign stacks
+    jobs += [hq("hier", 6 * m, first=1000, flavor="asan", scale=50, timeout=600), hq("wl", 8 * m, first=1020, flavor="asan", scale=60, timeout=600),
+             hq("wl", 8 * m, first=1040, flavor="asan", scale=60, timeout=600), hq("wl", 6 * m, first=1060, flavor="asan", scale=60, ncpu=4, timeout=600)]
+    jobs += [hw(32 * m), hw(32 * m, flavor="asan")]
     if tier == "thorough":
         for t in jobs:
             t.timeout = 1800
@@ -106,6 +123,8 @@ def C03(tier):
         "workloop_domains": 3,
         "site:_dispatch_workloop_invoke2:0": 1,
         "gate_trials": 20,
+        "mainq_items": 5000,
+        "waiter_schedule_reached": 48,
     }
     rule = ("one case = one trial over a random target-queue hierarchy (depth<=4, fan-in, serial and concurrent inner queues, "
             "workloop bottoms, queues created inactive/retargeted/activated), async to every level and sync/barrier_sync/"
@@ -123,6 +142,7 @@ def C04(tier):
     jobs += spread(hq, "mixed", 16 * m, 2)
     jobs += [hq("gate", 30 * m, first=0, extra=["--gate-conc=1"]), hq("window", 16 * m, first=0), hq("window3", 16 * m, first=0)]
     jobs += [hq("barrier", 6 * m, first=900, flavor="tsan", scale=25, timeout=900, perturb="uniform")]
+    jobs += [hq("barrier", 6 * m, first=1000, flavor="asan", scale=40, timeout=600), hq("mixed", 5 * m, first=1020, flavor="asan", scale=40, timeout=600)]
     if tier == "thorough":
         for t in jobs:
             t.timeout = 1800
@@ -154,6 +174,9 @@ def C05(tier):
     jobs += [Job("tsan", "h_handoff", ["--trials=%d" % (10 * m), "--first=200", "--scale=40"], timeout=900, tag="h_handoff:tsan"),
              hq("pingpong", 4 * m, first=950, flavor="tsan", scale=25, timeout=900, perturb="uniform"),
              hq("mixed", 4 * m, first=960, flavor="tsan", scale=25, timeout=900, perturb="uniform")]
+    jobs += [Job("asan", "h_handoff", ["--trials=%d" % (8 * m), "--first=300", "--scale=40"], timeout=600, tag="h_handoff:asan"),
+             hq("pingpong", 5 * m, first=1000, flavor="asan", scale=40, timeout=600), hq("wl", 5 * m, first=1020, flavor="asan", scale=50, timeout=600)]
+    jobs += [hw(32 * m), hw(32 * m, flavor="asan")]
     if tier == "thorough":
         for t in jobs:
             t.timeout = 1800
@@ -161,6 +184,7 @@ def C05(tier):
         "items": 200000 * (1 if tier == "quick" else 8),
         "handoff_edges_checked": 50000,
         "handoff_cross_thread": 20000,
+        "waiter_schedule_reached": 48,
     }
     rule = ("one case = one trial; every submission writes a check-summed plain payload before the call and the item verifies it, "
             "items of a serial queue pass a plain chained record, callers read item results after sync return / group_wait / "
@@ -468,9 +492,10 @@ def C17(tier):
              hj("h_block", 3 * m, first=5300, flavor="asan", scale=30, timeout=600), hj("h_block", 2 * m, first=5400, flavor="asan", mode="window", timeout=600),
              Job("asan", "h_data", ["--trials=%d" % (20 * m), "--first=5500"], timeout=600, tag="h_data:asan:c17"),
              hj("h_timer", 2 * m, first=5600, flavor="asan", scale=50, timeout=600)]
+    jobs += [hw(32 * m), hw(32 * m, flavor="asan")]
     for j in jobs:
         if j.flavor == "asan" and j.harness in ("h_life", "h_data", "h_queue"):   # the other harnesses keep per-case records alive on purpose
-            j.env.update({"ASAN_OPTIONS": "abort_on_error=1:detect_leaks=1:halt_on_error=1:allocator_may_return_null=1", "LSAN_OPTIONS": "exitcode=23:report_objects=0"})
+            j.env.update({"ASAN_OPTIONS": "abort_on_error=1:detect_leaks=1:halt_on_error=1:allocator_may_return_null=1:detect_stack_use_after_return=1", "LSAN_OPTIONS": "exitcode=23:report_objects=0"})
     if tier == "thorough":
         jobs += [hj("h_life", 20 * m, first=9000, flavor="dbg", timeout=1800)]
         for t in jobs:
@@ -482,6 +507,7 @@ def C17(tier):
         "block_cases": 500,
         "site:_os_object_release_internal_n_inline:4": 100000,
         "site:_dispatch_lane_class_dispose:0": 10000,
+        "waiter_schedule_reached": 48,
     }
     rule = ("one case = one lifetime scenario: the last application reference to a queue / source / group / workloop is dropped right "
             "after submitting, from inside the object's own item, while a child queue or a source still targets it, by another thread "
